@@ -80,8 +80,12 @@ SubmitStep(e) ==
       foundOK == FoundByNext(cache, key, e.hit)                   \* C07: found by the next session
       abHit   == kab \in DOMAIN cacheAB
       abOut   == IF abHit THEN cacheAB[kab].out ELSE e.fresh
-      blame   == { s \in Switches : \E k2 \in DOMAIN cache :
-                       k2 # key /\ SubKey(Ev[cache[k2].l], {s}) = SubKey(e, {s}) }
+      blame   == IF hitOK /\ retOK
+                 THEN \* missed although present: switches under which the earlier submission's key differs
+                      { s \in Switches : present /\ SubKey(Ev[cache[key].l], {s}) # SubKey(e, {s}) }
+                 ELSE \* wrong hit: switches under which another submitted key coincides with this one
+                      { s \in Switches : \E k2 \in DOMAIN cache :
+                           k2 # key /\ SubKey(Ev[cache[k2].l], {s}) = SubKey(e, {s}) }
   IN
   /\ cache'   = Bind(cache, key, [out |-> e.fresh, l |-> l])
   /\ cacheAB' = Bind(cacheAB, kab, [out |-> e.fresh, l |-> l])
